@@ -41,6 +41,13 @@ class Calls(Interp):
                         v = self.lift(v, s2)
                     yield st, v
                 return
+            if st.spec and n == 'same' and self._unbound(n, st):
+                # abstract-value equality of two specification values (not python __eq__)
+                (s1, a), = list(self.ev(e.args[0], st))
+                (s2, b2), = list(self.ev(e.args[1], st))
+                la = self.lift(a, st)
+                yield st, V(la.t == self.term(b2, la.ty, st), BOOL)
+                return
             if st.spec and n == 'implies' and self._unbound(n, st):
                 (s1, a), = list(self.ev(e.args[0], st))
                 (s2, b2), = list(self.ev(e.args[1], st))
